@@ -52,6 +52,10 @@ def run_property(pid, tier, seed, ctx_cache={}):
             reported_known.append(o)
         else:
             new_viol.append(o)
+    if os.environ.get("VERIF_DUMP_OBS"):
+        with open(os.environ["VERIF_DUMP_OBS"], "a") as f:
+            for o in obs:
+                f.write("%s\t%s\t%s\n" % (pid, o.key, o.ok))
     floor = meta["floor"][tier]
     floor_ok = len(obs) >= floor
     # evidence
